@@ -12,7 +12,7 @@ use serde_json::{json, Value};
 pub static DEF: PropDef = PropDef {
     id: "C11",
     level: "exploration",
-    rule: "deletion-centred histories on 2-4 real database services sharing a room: rows and references are created and spread, one peer deletes a node or a reference (same day or later days than the last change), then every pull order of bounded length over the peers (exhaustive for 3 peers and length <= 4 in the first cases, seeded random longer ones after) is played with a tombstone monitor after each step, followed by pulls until quiescence; non-trivial = at some step a peer that holds the deletion pulled from a peer that still holds the row; distinct = distinct (peers, deletion placement, pull order) The update that precedes the deletion reaches only some peers, so that the others keep offering the older version.",
+    rule: "deletion-centred histories on 2-4 real database services sharing a room: rows and references are created and spread, one peer deletes a node or a reference (same day or later days than the last change), then every pull order of bounded length over the peers (exhaustive for 3 peers and length <= 4 in the first cases, seeded random longer ones after) is played with a tombstone monitor after each step, followed by pulls until quiescence; non-trivial = at some step a peer that holds the deletion pulled from a peer that still holds the row; distinct = distinct (peers, deletion placement, pull order) The update that precedes the deletion reaches only some peers, so that the others keep offering the older version. In some histories the deleting peer is not a member while the rows are written (disabled before, enabled afterwards); a deletion applied by a peer (received by a complete pull) counts whether or not the peer kept a record.",
     assumptions: &[
         "peers wired through the library's own synchronise_room / InboundQueryService over in-memory channels (hook H4)",
         "a row re-created under the same identifier is impossible through the API (identifiers are random), so any row seen at a version <= the deleted one is the deleted row",
